@@ -489,7 +489,14 @@ def r11_subscription_id_numbers_are_u64(ctx):
 CONTROLS = [control_handmade, control_borrowed_str]
 
 
-RULES = [r1_code_tables, r2_serializer, r3_field_tables, r4_duplicate_guards, r5_acceptance_table, r6_no_handmade_json, r7_no_borrowed_str, r8_into_owned_is_fieldwise, r9_client_tries_response_first, r10_http_errors_keep_the_envelope, r11_subscription_id_numbers_are_u64]
+
+def rids_wire_ids_derive_both(ctx):
+    """ids are serialised and parsed by mirror-image (derived) impls"""
+    from .common import wire_ids_derive_both
+    wire_ids_derive_both(ctx, "C15.IDS")
+
+
+RULES = [r1_code_tables, r2_serializer, r3_field_tables, r4_duplicate_guards, r5_acceptance_table, r6_no_handmade_json, r7_no_borrowed_str, r8_into_owned_is_fieldwise, r9_client_tries_response_first, r10_http_errors_keep_the_envelope, r11_subscription_id_numbers_are_u64, rids_wire_ids_derive_both]
 
 LEVEL_TEXT = (
     "Decision tables and structural facts extracted exactly from the type-checked serde code: the error-code tables are "
